@@ -108,8 +108,11 @@ def run(R, tier):
         if list(got.keys()) != list(X.keys()) or not all(np.array_equal(np.asarray(g), b[idx]) for g, b in zip(got.values(), before)):
             viol('getitem', f'X[{idx}] does not hold values[..., {idx}] of every coefficient', algebra=spec, index=str(idx))
         newvals = [np.asarray(b[idx]) * 0 + 7.0 for b in before]
-        X[idx] = MultiVector.fromkeysvalues(alg, X.keys(), newvals)
         R.count('clause=setitem'); R.case(('set', it, str(idx)), True)
+        try:
+            X[idx] = MultiVector.fromkeysvalues(alg, X.keys(), newvals)
+        except Exception as e:  # noqa
+            viol('setitem-raises', f'X[{idx}] = V raised {type(e).__name__}: {e} (shape {shape}, {container})'[:300], algebra=spec, index=str(idx))
         for v, b in zip(X.values(), before):
             exp = b.copy(); exp[idx] = 7.0
             if not np.array_equal(np.asarray(v), exp):
